@@ -260,7 +260,13 @@ Pos synthetic(Rng& r, int templ) {
             p.b[sq(f, rk)] = own(K_P);
             p.b[sq(f + df, rk)] = opp(K_P);
             p.ep = sq(f + df, w ? 5 : 2);
-            int mode = r.below(4);
+            int mode = r.below(6);
+            if (mode >= 4) { // ENEMY king and OWN rook/queen on the rank of the two pawns: the e.p. capture clears the rank and gives check
+                int kf = r.below(8), rf = r.below(8);
+                if (p.b[sq(kf, rk)] || p.b[sq(rf, rk)] || kf == rf) continue;
+                p.b[sq(kf, rk)] = oppK; p.b[sq(rf, rk)] = own(r.chance(50) ? K_R : K_Q);
+                int ks = randEmpty(r, p); if (ks < 0) continue; p.b[ks] = ownK;
+            } else
             if (mode == 0) { // king and rook on the same rank, outside the pawns
                 int kf = r.below(8), rf = r.below(8);
                 if (p.b[sq(kf, rk)] || p.b[sq(rf, rk)] || kf == rf) continue;
@@ -274,8 +280,7 @@ Pos synthetic(Rng& r, int templ) {
             } else {
                 int ks = randEmpty(r, p); if (ks < 0) continue; p.b[ks] = ownK;
             }
-            int os = randEmpty(r, p); if (os < 0) continue;
-            p.b[os] = oppK;
+            if (mode < 4) { int os = randEmpty(r, p); if (os < 0) continue; p.b[os] = oppK; }
             // a second capturing pawn on the other side sometimes
             if (r.chance(30) && f + 2 * df >= 0 && f + 2 * df <= 7 && !p.b[sq(f + 2 * df, rk)]) p.b[sq(f + 2 * df, rk)] = own(K_P);
             extra = r.range(0, 8);
